@@ -122,7 +122,7 @@ TReset ==
         ELSE /\ (IF d = {} THEN TRUE ELSE Bad("a freshly set-up board is not what was set up", d, Detail(s)))
              /\ st' = s /\ keyS' = <<Ev.obs.key>> /\ mode' = "ok" /\ Advance
 
-TSkipped == Ev.ev \notin {"Reset", "GReset"} /\ mode = "skip" /\ Keep /\ mode' = "skip" /\ Advance
+TSkipped == Ev.ev \notin {"Reset", "GReset", "CliReset"} /\ mode = "skip" /\ Keep /\ mode' = "skip" /\ Advance
 
 TApply ==
   /\ Ev.ev = "Apply" /\ mode = "ok"
@@ -184,6 +184,10 @@ TGReset ==
   /\ LET s == GameStart(FromObs(Ev.obs)) IN
      IF ~Consistent(Abs(s)) THEN OutOfScope("game starts from an inconsistent position")
      ELSE st' = s /\ keyS' = <<Ev.obs.key>> /\ mode' = "ok" /\ Advance
+
+TCliReset ==
+  /\ Ev.ev = "CliReset"
+  /\ st' = GameStart(FromObs(Ev.obs)) /\ keyS' = <<Ev.obs.key>> /\ mode' = "ok" /\ Advance
 
 TGToggle == Ev.ev = "GToggle" /\ mode = "ok" /\ Accept(GameToggle(st), "state after toggle_turn differs", "stable")
 
@@ -261,6 +265,22 @@ TSearch ==
      ELSE IF MvOf(r.m) \notin L THEN Reject(st, "the move returned by the search is not legal", r, "stable")
      ELSE Accept(st, "the search changed the caller's board", "stable")
 
+\* one line typed at the `chess pvp` prompt (command-line level of C14): the program prints the
+\* board before and after; only placement and side to move are visible.  An accepted line plays the
+\* move and hands the turn over.
+TCli ==
+  /\ Ev.ev = "Cli" /\ mode = "ok"
+  /\ \E p \in {Abs(st)} : \E L \in {Legal(p)} :
+     \E M \in {IF Ev.kind = "coord" THEN CoordMatch(L, Ev.f, Ev.t) ELSE LabelMatch(p, L, Ev.s)} :
+       LET changed == Ev.b # st.b \/ Ev.turn # st.turn
+           after(m) == GameToggle(GamePlay(st, m))
+           hits == { m \in M : after(m).b = Ev.b /\ after(m).turn = Ev.turn }
+       IN IF M = {} /\ changed THEN Broken("a typed line naming no legal move changed the position", Ev.s)
+          ELSE IF M = {} THEN st' = st /\ keyS' = keyS /\ mode' = "ok" /\ Advance
+          ELSE IF ~changed THEN Reject(st, "a line naming a legal move was refused at the command line", Ev.s, "none")
+          ELSE IF hits = {} THEN Broken("an accepted line played a different move", Ev.s)
+          ELSE st' = after(CHOOSE m \in hits : TRUE) /\ keyS' = keyS /\ mode' = "ok" /\ Advance
+
 TGEnding ==
   /\ Ev.ev = "GEnding" /\ mode = "ok"
   /\ \E p \in {Abs(st)} : \E L \in {Legal(p)} :
@@ -277,7 +297,7 @@ TGEnding ==
 
 Init == l = 2 /\ st = EmptyEngine /\ keyS = << >> /\ mode = "skip"
 Next == l <= NRec /\ (TReset \/ TSkipped \/ TApply \/ TUndo \/ TToggle \/ TCount \/ TUncount \/ TQuery \/ TEnding
-                       \/ TGReset \/ TGToggle \/ TCoordBatch \/ TCoord \/ TLabelBatch \/ TLabel \/ TEngineMove \/ TGEnding \/ TBookEdges \/ TSearch)
+                       \/ TGReset \/ TGToggle \/ TCoordBatch \/ TCoord \/ TLabelBatch \/ TLabel \/ TEngineMove \/ TGEnding \/ TBookEdges \/ TSearch \/ TCli \/ TCliReset)
 Spec == Init /\ [][Next]_vars
 
 \* the model itself must stay sane (a failure here is a defect of the specification, not of the code)
